@@ -307,15 +307,27 @@ class Check:
                         r1, m1 = self.solve(list(assumptions) + extra + [e])
                         if r1 == 'unknown' and case_split:
                             # hard condition: decide it case by case over an exhaustive split given by the check
-                            rx, _ = self.solve(list(assumptions) + [z3.Not(z3.Or(*case_split))])
-                            if rx == 'unsat':
-                                r1 = 'unsat'
-                                for cs in case_split:
-                                    r2, m2 = self.solve(list(assumptions) + extra + [cs, e], timeout_ms=2 * self.query_timeout_ms)
+                            # (a list of cases, or a list of levels: a case that stays undecided is refined by the next level)
+                            levels = case_split if isinstance(case_split[0], (list, tuple)) else [case_split]
+                            for lv in levels:
+                                rx, _ = self.solve(list(assumptions) + [z3.Not(z3.Or(*lv))])
+                                if rx != 'unsat':
+                                    return 'unknown', None
+
+                            def by_cases(prefix, depth):
+                                for cs in levels[depth]:
+                                    r2, m2 = self.solve(list(assumptions) + extra + prefix + [cs, e], timeout_ms=self.query_timeout_ms)
                                     if r2 == 'sat':
                                         return 'sat', m2
                                     if r2 == 'unknown':
-                                        return 'unknown', None
+                                        if depth + 1 < len(levels):
+                                            r3, m3 = by_cases(prefix + [cs], depth + 1)
+                                            if r3 != 'unsat':
+                                                return r3, m3
+                                        else:
+                                            return 'unknown', None
+                                return 'unsat', None
+                            return by_cases([], 0)
                         elif r1 == 'unknown':
                             # the few hard conditions get a longer cap before they count as undecided
                             r1, m1 = self.solve(list(assumptions) + extra + [e], timeout_ms=6 * self.query_timeout_ms)
